@@ -424,7 +424,7 @@ def sec_decode_symbolic(rec, Tmax=8, Kmax=8, patches=None):
             m.quaternions = rows
             # super().align is replaced by a stub returning the symbolic winner (argmax itself is checked in sec_decode)
             orig = B.BaseAlignmentModel.align
-            B.BaseAlignmentModel.align = lambda self, *a, **k: B.AlignmentResult(iopt, "SHIFT", None, "SCORE")
+            B.BaseAlignmentModel.align = lambda self, *a, **k: B.AlignmentResult(iopt, "SHIFT", "DUMMY-QUAT-OF-THE-BASE-CLASS", "SCORE")
             try:
                 paths = explore(lambda: B.RotationImplemented.align(m, None, (1, 1, 1)), assumptions=[iopt.e >= 0, iopt.e < T * K])
             finally:
@@ -434,6 +434,12 @@ def sec_decode_symbolic(rec, Tmax=8, Kmax=8, patches=None):
                     rec.error(f"decode-sym[T={T},K={K}]", repr(p.exc))
                     continue
                 res = p.result
+                okrow = isinstance(res.quat, tuple) and len(res.quat) == 2 and res.quat[0] == "row"
+                if not okrow:
+                    rpx = replay_decode(min(T, 3), max(min(K, 3), 1), nonid=(K == 1))
+                    rec.fact(f"decode-sym[T={T},K={K}]/reported-rotation-is-one-of-the-searched-rotations", False, key="C06/decode/rotation-is-a-candidate", detail={"quat": repr(res.quat)[:80], "T": T, "K": K},
+                             reproduced=rpx({})[0])
+                    continue
                 idx = res.quat[1]
                 hy = [iopt.e >= 0, iopt.e < T * K, p.condition()]
                 rec.query(f"decode-sym[T={T},K={K}]/rotation-index", hy, zi(idx) == iopt.e / T, key="C06/decode/rotation-of-candidate",
